@@ -160,7 +160,7 @@ REASON_PENDING = "check under construction in this session; not claimed until it
 
 
 def main():
-    HOLD = {"C03"}  # built, proofs in progress
+    HOLD = set()  # built, proofs in progress
     claimed = [p["id"] for p in props if p["id"] in CLAIMED and p["id"] not in HOLD and (ROOT / "harness" / "props" / f"{p['id'].lower()}.py").exists()]
     m = {
         "version": 1,
